@@ -146,6 +146,9 @@ def honest(ctx, cfg, origin):
                 break
             from sktime.forecasting.base import ForecastingHorizon
             pred = f.predict(ForecastingHorizon(yte.index, is_relative=False))
+            if k >= len(res) or (res0 is not None and k >= len(res0)):
+                bad = "%s: evaluate returned %d rows for %d splits" % (name, len(res), len(folds))
+                break
             if res0 is not None:
                 smape = float(np.mean(2 * np.abs(yte.values - pred.values) / (np.abs(yte.values) + np.abs(pred.values))))
                 got0 = float(res0.iloc[k][[c for c in res0.columns if c.startswith("test_")][0]])
